@@ -523,6 +523,13 @@ def regression_corpus():
         scn("regression:binary currency file", cur=("garbage", 9)),
         scn("regression:history path is a directory on exit", hist=("dir",)),
         scn("regression:exported table with trailing newline is used", cur=("text", GOOD_TABLE)),
+        # sizes: valid settings after kilobytes of junk, very long lines, very long values
+        scn("size:valid settings after 300 junk lines", config=("text", "".join("# note %d\nunknown-key-%d = %d\nprecision = nine%d\n" % (i, i, i, i) for i in range(100)) + "precision = 3\nprompt = ka=>\n")),
+        scn("size:valid settings after a 20000-character line", config=("text", "# " + "x" * 20000 + "\nprecision = 3\n")),
+        scn("size:valid settings before and after 64 KB of junk", config=("text", "precision = 3\n" + "junk line without separator\n" * 2500 + "prompt = ka=>\n")),
+        scn("size:a 5000-character prompt", config=("text", "prompt = " + "p" * 5000 + "\nprecision = 3\n")),
+        scn("size:paths with a tilde", config=("text", "history-path = ~nosuchuser_ka/history\ncurrency-path = ~~/currency\nprecision = 3\n"), runs=("probe", "cli_a", "cli_b")),
+        scn("size:paths with a tilde and a user", config=("text", "currency-path = ~root/nosuch/currency\nhistory-path = ~\nprecision = 3\n"), runs=("probe", "cli_a", "cli_b")),
     ]
 
 
